@@ -285,6 +285,12 @@ func (s *Slicer) walk(v ssa.Value, via []string, depth int, seen map[string]bool
 				return
 			}
 		}
+		// slices.Clone / bytes.Clone: a fresh slice holding the argument's elements
+		if _, ok := IsCall(x, CalleeID{Pkg: "slices", Name: "Clone"}, CalleeID{Pkg: "bytes", Name: "Clone"}); ok && len(x.Call.Args) == 1 {
+			*out = append(*out, Leaf{Kind: "make", Val: x, Via: append([]string{}, via...)})
+			s.walk(x.Call.Args[0], via, depth, seen, out, n+1)
+			return
+		}
 		if s.Through != nil {
 			if idx := s.Through(x); idx != nil {
 				for _, i := range idx {
@@ -465,27 +471,150 @@ func (s *Slicer) walkFreeVar(fv *ssa.FreeVar, via []string, depth int, seen map[
 	}
 }
 
-// localMap: when m is a map created in the same function (MakeMap), the keys/values
-// read from it are those inserted by MapUpdate instructions on it.
+// localMap: when m is a map created in the function group (MakeMap) — directly, or read
+// back from a local slice it was appended to — the keys/values read from it are those
+// inserted by MapUpdate instructions on it, in this function or in a helper it is passed to.
 func (s *Slicer) localMap(m ssa.Value, what string, via []string, depth int, seen map[string]bool, out *[]Leaf, n int) bool {
-	mm, ok := Resolve(m).(*ssa.MakeMap) // also a map built and returned by a private helper
-	if !ok {
+	mms := mapOrigins(m, 0)
+	if len(mms) == 0 {
 		return false
 	}
 	found := false
-	for _, r := range Refs(mm) {
-		mu, ok := r.(*ssa.MapUpdate)
-		if !ok || mu.Map != mm {
-			continue
-		}
-		found = true
-		if what == "key" {
-			s.walk(mu.Key, via, depth, seen, out, n+1)
-		} else {
-			s.walk(mu.Value, via, depth, seen, out, n+1)
+	for _, mm := range mms {
+		for _, mu := range mapUpdates(mm, 0) {
+			found = true
+			if what == "key" {
+				s.walk(mu.Key, via, depth, seen, out, n+1)
+			} else {
+				s.walk(mu.Value, via, depth, seen, out, n+1)
+			}
 		}
 	}
 	return found
+}
+
+// mapOrigins: the MakeMap instructions m may denote; nil when some origin is not one.
+func mapOrigins(m ssa.Value, d int) []*ssa.MakeMap {
+	if d > 4 {
+		return nil
+	}
+	m = Resolve(m) // also a map built and returned by a private helper, or handed in as a parameter
+	switch x := m.(type) {
+	case *ssa.MakeMap:
+		return []*ssa.MakeMap{x}
+	case *ssa.Phi:
+		var out []*ssa.MakeMap
+		for _, e := range x.Edges {
+			o := mapOrigins(e, d+1)
+			if o == nil {
+				return nil
+			}
+			out = append(out, o...)
+		}
+		return out
+	case *ssa.UnOp:
+		// an element of a local slice: the values appended to that slice
+		if x.Op != token.MUL {
+			return nil
+		}
+		ia, ok := x.X.(*ssa.IndexAddr)
+		if !ok {
+			return nil
+		}
+		var out []*ssa.MakeMap
+		for _, v := range appendedTo(ia.X, 0, map[ssa.Value]bool{}) {
+			if v == nil {
+				return nil
+			}
+			o := mapOrigins(v, d+1)
+			if o == nil {
+				return nil
+			}
+			out = append(out, o...)
+		}
+		return out
+	}
+	return nil
+}
+
+// appendedTo: the element values a local slice can hold: those appended to it (a nil
+// entry marks an origin that is not understood).
+func appendedTo(sl ssa.Value, d int, seen map[ssa.Value]bool) []ssa.Value {
+	sl = Strip(sl)
+	if seen[sl] || d > 6 {
+		return nil
+	}
+	seen[sl] = true
+	switch x := sl.(type) {
+	case *ssa.MakeSlice:
+		return nil
+	case *ssa.Const:
+		return nil
+	case *ssa.Phi:
+		var out []ssa.Value
+		for _, e := range x.Edges {
+			out = append(out, appendedTo(e, d+1, seen)...)
+		}
+		return out
+	case *ssa.Slice:
+		return appendedTo(x.X, d+1, seen)
+	case *ssa.Call:
+		b, ok := x.Call.Value.(*ssa.Builtin)
+		if !ok || b.Name() != "append" || len(x.Call.Args) != 2 {
+			return []ssa.Value{nil}
+		}
+		out := appendedTo(x.Call.Args[0], d+1, seen)
+		// the variadic argument: new [k]T{…}[:]
+		va, ok := Strip(x.Call.Args[1]).(*ssa.Slice)
+		if !ok {
+			return append(out, nil)
+		}
+		al, ok := va.X.(*ssa.Alloc)
+		if !ok {
+			return append(out, nil)
+		}
+		for _, r := range Refs(al) {
+			ia, ok := r.(*ssa.IndexAddr)
+			if !ok {
+				continue
+			}
+			for _, r2 := range Refs(ia) {
+				if st, ok := r2.(*ssa.Store); ok && st.Addr == ssa.Value(ia) {
+					out = append(out, st.Val)
+				}
+			}
+		}
+		return out
+	}
+	return []ssa.Value{nil}
+}
+
+// mapUpdates: the MapUpdate instructions on map mm: direct ones, and those a helper
+// performs on the parameter the map is passed as.
+func mapUpdates(mm ssa.Value, d int) []*ssa.MapUpdate {
+	var out []*ssa.MapUpdate
+	if d > 2 {
+		return nil
+	}
+	for _, r := range Refs(mm) {
+		switch x := r.(type) {
+		case *ssa.MapUpdate:
+			if x.Map == mm {
+				out = append(out, x)
+			}
+		case *ssa.Call:
+			cal := x.Call.StaticCallee()
+			if cal == nil || cal.Blocks == nil || len(cal.Params) != len(x.Call.Args) {
+				continue
+			}
+			for i, a := range x.Call.Args {
+				if a == mm {
+					out = append(out, mapUpdates(cal.Params[i], d+1)...)
+				}
+			}
+		}
+	}
+	return out
 }
 
 // copiesInto adds the sources of copy(dst, src) calls whose dst is the made slice,
@@ -522,3 +651,7 @@ func (s *Slicer) copiesInto(ms *ssa.MakeSlice, via []string, depth int, seen map
 		}
 	})
 }
+
+// MapOrigins / MapUpdates expose the container provenance used by the Slicer.
+func MapOrigins(m ssa.Value) []*ssa.MakeMap    { return mapOrigins(m, 0) }
+func MapUpdates(mm ssa.Value) []*ssa.MapUpdate { return mapUpdates(mm, 0) }
